@@ -169,7 +169,7 @@ pub fn case_for(seed: u64, tier: Tier, run: u64) -> Option<Case> {
 }
 
 pub fn run(ctx: &Ctx) -> i32 {
-    let n = scaled(ctx.tier.pick(9000, 300000));
+    let n = scaled(ctx.tier.pick(9000, 200000));
     let stats = par_run(n, ctx.workers, |i, st| {
         if let Some(case) = case_for(ctx.seed, ctx.tier, i) {
             with_curve!(case.base.st.curve, G, run_case::<G>(i, &case, st));
